@@ -61,6 +61,16 @@ fn frame_line(fun: ObjRef<Fun>, offset: usize) -> String {
   }
 }
 
+/// The initial content of a stack of the given size. Functions needing more
+/// slots than the shared constant array holds get their own buffer
+fn undefined_slots(stack_count: usize) -> std::borrow::Cow<'static, [Value]> {
+  if stack_count <= UNDEFINED_ARRAY.len() {
+    std::borrow::Cow::Borrowed(&UNDEFINED_ARRAY[0..stack_count])
+  } else {
+    std::borrow::Cow::Owned(vec![VALUE_UNDEFINED; stack_count])
+  }
+}
+
 pub struct Fiber {
   /// A stack holding all local variable currently in use
   stack: UniqueVector<Value, Header>,
@@ -115,7 +125,7 @@ impl Fiber {
 
     // Create stack and assign fun to first slot
     let mut stack = UniqueVector::new(allocator.manage(
-      VecBuilder::new(&UNDEFINED_ARRAY[0..stack_count], stack_count),
+      VecBuilder::new(&undefined_slots(stack_count), stack_count),
       context,
     ));
 
@@ -609,7 +619,7 @@ impl Fiber {
 
     // Create the stack
     let mut stack = UniqueVector::new(allocator.manage(
-      VecBuilder::new(&UNDEFINED_ARRAY[0..stack_count], stack_count),
+      VecBuilder::new(&undefined_slots(stack_count), stack_count),
       context,
     ));
     allocator.push_root(stack);
